@@ -40,7 +40,7 @@ type c11IDKey struct {
 
 var c11IDFields = []string{"S1", "S2", "B", "U", "I", "I64", "U32", "Bo", "PS", "PI", "PU", "NS", "NI", "NC"}
 
-var c11IDStrs = []string{"", "", "a", "A", "ab", "AB", "a_b", "nil", "0", "é"}
+var c11IDStrs = []string{"", "", "a", "A", "ab", "AB", "a_b", "nil", "0", "é", "a ", " a", "01"}
 
 // c11KV describes one key component independently of gorm: the KeyVal the model should see and the zero flag
 // that reflect's IsZero gives for a struct field holding v
